@@ -189,7 +189,7 @@ pub fn run(ctx: &Ctx) -> ! {
     }
     let mut report = Report::default();
     report.max_samples = 1;
-    let budget = ctx.pick(45.0, 360.0);
+    let budget = ctx.pick(45.0, 300.0);
     {
         let n = ctx.pick(20_000u64, 5_000_000);
         let c2 = ctx.clone();
